@@ -109,7 +109,7 @@ func main() {
 		}()
 	}
 	mon.ResetDefaults()
-	mon.AssertDefaults(c, "process end")
+	mon.AssertRestored(c)
 	if *out != "" {
 		if err := c.WriteReport(*out, true); err != nil {
 			fmt.Fprintln(os.Stderr, err)
